@@ -1454,7 +1454,7 @@ class Interp:
             return
 
         # ---- iterator adaptors over modelled iterators (closures are interpreted)
-        if trait == 'std::iter::Iterator' and name in ('filter', 'take_while', 'map', 'skip_while') and len(args) == 2:
+        if trait == 'std::iter::Iterator' and name in ('filter', 'take_while', 'map', 'skip_while', 'map_while', 'filter_map') and len(args) == 2:
             inner = fr.operand(args[0])
             cl = self._closure_value(fr, args[1])
             if (isinstance(inner, (SliceIt, AdaptIt, RangeIt)) or hasattr(inner, 'iter_next')) and cl is not None:
@@ -1754,6 +1754,15 @@ class Interp:
                 if itv.kind == 'map':
                     out = self._call_closure_rw(cf, itv.closure, itv.captures, [item], where) if cf is not None else self._call_closure(itv.closure, itv.captures, item, where)
                     return Opt('some', out), AdaptIt(itv.kind, inner, itv.closure, itv.captures)
+                if itv.kind in ('map_while', 'filter_map'):
+                    out = self._call_closure_rw(cf, itv.closure, itv.captures, [item], where) if cf is not None else self._call_closure(itv.closure, itv.captures, item, where)
+                    if not (isinstance(out, Opt) and out.tag in ('some', 'none')):
+                        raise NotDerivable('iterator closure result not decided on a modelled item', where)
+                    if out.tag == 'some':
+                        return Opt('some', out.payload), AdaptIt(itv.kind, inner, itv.closure, itv.captures)
+                    if itv.kind == 'map_while':
+                        return Opt('none', TOP), AdaptIt(itv.kind, inner, itv.closure, itv.captures, True)
+                    continue
                 keep = self._call_closure_rw(cf, itv.closure, itv.captures, [('byref', item)], where) if cf is not None else self._call_closure(itv.closure, itv.captures, ('byref', item), where)
                 if not isinstance(keep, Int):
                     raise NotDerivable('iterator predicate not decided on a modelled item', where)
@@ -2089,7 +2098,10 @@ class Interp:
         if name in ('add_assign', 'sub_assign'):
             a = self._as_lin(fr.deref_operand(args[0]))
             b = self._as_lin(fr.deref_operand(args[1]))
-            fr.store_through(args[0], self.opaque('%s(%r, %r)' % (name, a, b), where))
+            ov = self.opaque('%s(%r, %r)' % (name, a, b), where)
+            if isinstance(a, Lin) and isinstance(b, Lin):
+                OPAQUE_DEFS[list(ov.t)[0]] = (name, a, b)
+            fr.store_through(args[0], ov)
             return True
         if name == 'one':
             fr.storev(dest, Lin())
@@ -2113,6 +2125,7 @@ class Interp:
 
 _const_names = {}
 CONST_ATOMS = {}
+OPAQUE_DEFS = {}      # opaque atom -> ('add_assign' | 'sub_assign', a, b): what the interned sum was
 
 
 def _const_name(facts, v):
